@@ -252,6 +252,12 @@ var sharedPool = []sharedRule{
 	{"stages-forward-errors", func(c *Ctx, r string) { checkStagesForwardErrors(c, r) }},
 	{"writer-flush-shape", func(c *Ctx, r string) { checkWriterFlushShape(c, r) }},
 	{"guarded-core", func(c *Ctx, r string) { checkGuardedTable(c, r) }},
+	{"protocol-channels-unbuffered", func(c *Ctx, r string) { checkProtocolChannelsUnbuffered(c, r) }},
+	{"verify-setting-only-from-options", func(c *Ctx, r string) { checkVerifySettingOnlyFromOptions(c, r) }},
+	{"empty-existing-blob-rewritten", func(c *Ctx, r string) { checkEmptyExistingBlobRewritten(c, r) }},
+	{"label-list-resolves-name", func(c *Ctx, r string) { checkLabelListResolvesName(c) }},
+	{"get-builds-its-reader", func(c *Ctx, r string) { checkGetBuildsItsReader(c, r) }},
+	{"writeto-counts-what-it-copied", func(c *Ctx, r string) { checkWriteToCountsWhatItCopied(c, r) }},
 	{"effects", func(c *Ctx, r string) {
 		checkEffectDominance(c, r, "pkg/cafs", "pkg/core", "pkg/fuse", "pkg/storage/localfs", "pkg/wal", "pkg/filetracker")
 	}},
